@@ -134,9 +134,18 @@ def _alt_rule(k):
 # ------------------------------------------------------------------------------------------------
 
 
-def _gen_block(w, depth, budget, allow_mut, sid, tid):
-    """Returns a list of statements; `budget` is a one-element list counting statements left."""
+def _gen_block(w, depth, budget, allow_mut, sid, tid, recent=None):
+    """Returns a list of statements; `budget` is a one-element list counting statements left.
+    `recent`: operator names this thread's program added or fixed lately -- observations look at those
+    names more often than at random ones (a rule can only be seen to outlive its context if somebody looks)."""
     block = []
+    recent = [] if recent is None else recent
+
+    def obs_name():
+        if recent and w.random() < 0.6:
+            return w.choice(recent[-3:])
+        return w.choice(MARK_NAMES + ["CRX"])
+
     n = w.randint(1, 4)
     for _ in range(n):
         if budget[0] <= 0:
@@ -144,29 +153,50 @@ def _gen_block(w, depth, budget, allow_mut, sid, tid):
         budget[0] -= 1
         r = w.random()
         sid[0] += 1
+        if w.random() < 0.06 and depth < 2 and budget[0] >= 4:
+            # directed: whatever a context computed about a name before it was left (normally or by an
+            # exception) must not be what the very next context sees for that name
+            nm = w.choice(MARK_NAMES)
+            recent.append(nm)
+            budget[0] -= 4
+            first = [{"k": "add", "id": sid[0] * 100 + 1, "name": nm, "again": False},
+                     {"k": "obs", "id": sid[0] * 100 + 2, "name": nm}]
+            if w.random() < 0.6:
+                first.append({"k": "raise", "id": sid[0] * 100 + 3})
+            block.append({"k": "ctx", "id": sid[0] * 100 + 4, "body": first, "catch": True})
+            block.append({"k": "ctx", "id": sid[0] * 100 + 5, "catch": True,
+                          "body": [{"k": "obs", "id": sid[0] * 100 + 6, "name": nm}]})
+            continue
         if r < 0.28 and depth < 3:
-            body = _gen_block(w, depth + 1, budget, True, sid, tid)
+            body = _gen_block(w, depth + 1, budget, True, sid, tid, recent)
             block.append({"k": "ctx", "id": sid[0], "body": body, "catch": w.random() < 0.6})
         elif r < 0.45 and allow_mut:
-            block.append({"k": "add", "id": sid[0], "name": w.choice(MARK_NAMES)})
+            nm = w.choice(MARK_NAMES)
+            recent.append(nm)
+            # "again": offer the rule that this thread added last once more (PennyLane rejects the duplicate
+            # name half-way through add_decomps; the context must be as it was)
+            block.append({"k": "add", "id": sid[0], "name": nm, "again": w.random() < 0.25})
         elif r < 0.58 and allow_mut:
             if w.random() < 0.4:
                 block.append({"k": "fix", "id": sid[0], "name": "CRX", "real": w.randrange(4)})
             else:
-                block.append({"k": "fix", "id": sid[0], "name": w.choice(MARK_NAMES)})
+                nm = w.choice(MARK_NAMES)
+                recent.append(nm)
+                block.append({"k": "fix", "id": sid[0], "name": nm})
         elif r < 0.80:
-            block.append({"k": "obs", "id": sid[0], "name": w.choice(MARK_NAMES + ["CRX"])})
+            block.append({"k": "obs", "id": sid[0], "name": obs_name()})
         elif r < 0.86 and depth > 0:
             block.append({"k": "raise", "id": sid[0]})
         elif r < 0.93:
-            mode = w.choice(["plain", "fixed", "alt"])
-            block.append({"k": "decompose", "id": sid[0], "mode": mode, "rule": w.randrange(4)})
+            mode = w.choice(["plain", "fixed", "alt", "alt_bad", "fixed_bad"])
+            block.append({"k": "decompose", "id": sid[0], "mode": mode, "rule": w.randrange(4),
+                          "name": w.choice(MARK_NAMES)})
         elif depth > 0 and tid < 100:
             block.append({"k": "spawn", "id": sid[0],
                           "body": [{"k": "obs", "id": sid[0] * 1000 + j, "name": w.choice(MARK_NAMES + ["CRX"])}
                                    for j in range(w.randint(1, 3))]})
         else:
-            block.append({"k": "obs", "id": sid[0], "name": w.choice(MARK_NAMES + ["CRX"])})
+            block.append({"k": "obs", "id": sid[0], "name": obs_name()})
     return block
 
 
@@ -179,8 +209,9 @@ def gen_case(streams, tier):
         sid = [0]
         budget = [w.randint(3, 12)]
         prog = []
+        recent = []
         while budget[0] > 0:
-            prog.extend(_gen_block(w, 0, budget, False, sid, t))
+            prog.extend(_gen_block(w, 0, budget, False, sid, t, recent))
         if not heavy:
             prog = _strip(prog)
         programs.append(prog)
@@ -204,7 +235,7 @@ def gen_case(streams, tier):
 def _strip(block):
     out = []
     for st in block:
-        if st["k"] == "decompose":
+        if st["k"] == "decompose" and not st["mode"].endswith("_bad"):
             out.append({"k": "obs", "id": st["id"], "name": "CRX"})
         elif st["k"] == "ctx":
             out.append(dict(st, body=_strip(st["body"])))
@@ -308,8 +339,11 @@ def run_case(case):
                         if not st["catch"]:
                             raise
                 elif k == "add":
-                    rule = _ENV["markers"][slot * N_MARK + (mk[0] % N_MARK)]
-                    mk[0] += 1
+                    if st.get("again") and mk[0] > 0:
+                        rule = _ENV["markers"][slot * N_MARK + ((mk[0] - 1) % N_MARK)]
+                    else:
+                        rule = _ENV["markers"][slot * N_MARK + (mk[0] % N_MARK)]
+                        mk[0] += 1
                     d, f = model.stack[-1]
                     try:
                         qp.add_decomps(st["name"], rule)
@@ -344,6 +378,26 @@ def run_case(case):
                     counters["decompose_calls"] += 1
                     mode = st["mode"]
                     _, cur_fixed = model.view("CRX")
+                    if mode.endswith("_bad"):
+                        # the graph fills its private local context from the user's dictionaries; the second
+                        # entry is rejected after the first one went in.  Nothing of it may remain visible.
+                        mrule = _ENV["markers"][slot * N_MARK + (mk[0] % N_MARK)]
+                        mk[0] += 1
+                        tape = qp.tape.QuantumScript([qp.CRX(0.5, [0, 1])], [qp.expval(qp.Z(0))])
+                        mark_cls = getattr(qp, st["name"])
+                        if mode == "alt_bad":
+                            kw = {"alt_decomps": {mark_cls: [mrule], qp.CRX: [_ENV["crx_rules"][st["rule"]]]}}
+                        else:
+                            kw = {"fixed_decomps": {mark_cls: mrule, qp.CRX: 5}}
+                        try:
+                            qp.transforms.decompose(tape, gate_set=set(GATE_SET), **kw)
+                            viol("missing_exception", {"stmt": "decompose_" + mode}, {"thread": tname, "stmt": st["id"]})
+                        except (ValueError, AttributeError, TypeError):
+                            counters["rejected_graph_constructions"] = counters.get("rejected_graph_constructions", 0) + 1
+                        trace.log("decompose_bad", tname, st["id"], mode)
+                        observe({"id": st["id"], "name": st["name"]}, None)
+                        observe({"id": st["id"], "name": "CRX"}, None)
+                        continue
                     try:
                         if mode == "fixed":
                             got = _decompose(st["rule"], None)
